@@ -290,6 +290,9 @@ int64_t ExpressionEvaluator::evaluate_member_access_impl(const ASTNode *node) {
                     return member_var_ptr->value;
                 }
             }
+        } catch (const ArrayIndexOutOfBoundsError &) {
+            // not a failed lookup: there is no such element
+            throw;
         } catch (const std::exception &e) {
             {
                 char dbg_buf[512];
